@@ -1433,11 +1433,12 @@ impl VtCtx {
     /// used again, with a value of its own (properties are a list, not a map: both pairs are
     /// delivered, in the order they were attached).
     fn reuse_key(w: &mut World, target: ARef, props: &mut Vec<(String, String)>) {
-        if props.is_empty() || w.t % 3 != 0 {
+        // (the keys of context probes stay unique: the frame condition identifies probes by key)
+        if props.is_empty() || w.t % 3 != 0 || props[0].0.starts_with("probe-k") {
             return;
         }
         let earlier = w.h.atts.iter().rev().find_map(|a| match (&a.kind, a.target == target) {
-            (AKind::Props(ps), true) => ps.first().map(|p| p.0.clone()),
+            (AKind::Props(ps), true) => ps.first().map(|p| p.0.clone()).filter(|k| !k.starts_with("probe-k")),
             _ => None,
         });
         if let Some(k) = earlier {
